@@ -172,6 +172,14 @@ func (changes *Changes) GetDSC() (*DSC, error) {
 
 // Make sure every listed file is a plain name, i.e. lives next to the
 // control file, before anything is copied, moved or removed.
+func (changes *Changes) checkNoDirectories() error {
+	paths := []string{}
+	for _, file := range changes.AbsFiles() {
+		paths = append(paths, file.Filename)
+	}
+	return internal.CheckNoDirectories(paths)
+}
+
 func (changes *Changes) checkFiles() error {
 	for _, file := range changes.Files {
 		if err := internal.CheckFilename(file.Filename); err != nil {
@@ -228,6 +236,9 @@ func (changes *Changes) Move(dest string) error {
 	if err := changes.checkFiles(); err != nil {
 		return err
 	}
+	if err := changes.checkNoDirectories(); err != nil {
+		return err
+	}
 
 	for _, file := range changes.AbsFiles() {
 		dirname := filepath.Base(file.Filename)
@@ -248,6 +259,9 @@ func (changes *Changes) Move(dest string) error {
 // on removing associated files.
 func (changes *Changes) Remove() error {
 	if err := changes.checkFiles(); err != nil {
+		return err
+	}
+	if err := changes.checkNoDirectories(); err != nil {
 		return err
 	}
 	for _, file := range changes.AbsFiles() {
